@@ -5,6 +5,8 @@ package main
 //	c04      matching in both directions (exhaustive single-entry trees, random sets)
 //	c05      operation histories (exhaustive + random), snapshots of returned slices
 //	c05conc  lock table of tree.go (go/ast) and concurrent runs on disjoint topics/values
+//	c05lin   timestamped concurrent histories on overlapping topics/values (linearizability)
+//	parse    topic.Parse / ContainsWildcards against coq/Topic/Parse.v
 
 import (
 	"encoding/hex"
@@ -19,7 +21,7 @@ import (
 )
 
 func main() {
-	hx.Main(map[string]func(*hx.Ctx){"c04": runC04, "c05": runC05, "c05conc": runC05Conc})
+	hx.Main(map[string]func(*hx.Ctx){"c04": runC04, "c05": runC05, "c05conc": runC05Conc, "c05lin": runC05Lin, "parse": runParse})
 }
 
 func hexs(s string) string {
